@@ -2,7 +2,7 @@
 test() in generated projects go through the REAL `meson setup` (ninja back end, stub ninja) and are then EXECUTED the way
 ninja / meson test would execute them: the COMMAND variable of build.ninja is $-evaluated (a model of ninja's evaluation — the
 only model left) and handed to the real /bin/sh -c in the build directory, so that the real shell, the real `env`, and the real
-`meson --internal exe` wrapper (capture, feed, pickled commands) run; tests are run by the real `meson test --no-rebuild`.  The
+`meson --internal exe` wrapper (capture, feed, pickled commands) run; tests are run by the real `meson test --no-rebuild` (once, and again with --repeat 2).  The
 program that is finally started dumps its argv; it must be the arguments given: same bytes, same count, same order, with the
 documented rewrite (backslash -> / in custom-target commands)."""
 import json, os, pickle, random, shlex, shutil, subprocess, sys, tempfile
@@ -247,6 +247,17 @@ def _argv_chunk(chunk):
             env = dict(os.environ, NINJA=stub_ninja(d))
             if any(m == 'test' for _i, m, _a in items):
                 subprocess.run([sys.executable, os.path.join(repo, 'meson.py'), 'test', '--no-rebuild', '-C', build], capture_output=True, text=True, env=env)
+                firsts = {}
+                for i_, m_, _a in items:
+                    sp_ = os.path.join(build, 'side', f'a{i_}.json')
+                    if m_ == 'test' and os.path.exists(sp_):
+                        firsts[i_] = json.load(open(sp_))
+                # the same tests again, twice in one `meson test` process: every execution gets the same argv (the dump of
+                # the last execution replaces the earlier ones and is what is compared below)
+                subprocess.run([sys.executable, os.path.join(repo, 'meson.py'), 'test', '--no-rebuild', '--repeat', '2', '-C', build], capture_output=True, text=True, env=env)
+                for i_, m_, a_ in items:
+                    if m_ == 'test' and i_ in firsts and firsts[i_] != list(a_):
+                        fails.append({'case': {'generator_seed': seed, 'index': i_, 'mode': 'test', 'args': a_}, 'stage': 'argv-e2e', 'detail': f'test: the process received {firsts[i_]!r}, the build definition gives {list(a_)!r}'})
             for i, mode, args in items:
                 nt += 1
                 case = {'generator_seed': seed, 'index': i, 'mode': mode, 'args': args}
